@@ -32,10 +32,17 @@ TRUSTED = ["binding semantics TsV.C09.{defName, innerDefName, refs, spell, tgt} 
            "the per-language python extractors of tools/c09.py (line patterns over the generated text)"]
 
 NAMES = ["Alpha", "Bravo", "Carol", "Delta", "Echo", "Fox"]
-KINDS = ["struct", "gstruct", "unit", "tagged", "gtagged", "alias", "galias"]
+# `sas_*`: an enum / struct carrying typeshare(serialized_as = "String") is written as an alias of that type (its own members are not printed)
+KINDS = ["struct", "gstruct", "unit", "tagged", "gtagged", "alias", "galias", "struct", "tagged", "sas_enum", "sas_struct"]
 SKELETON_KINDS = ["struct", "gstruct", "unit", "tagged", "alias"]
 GENERIC = {"gstruct", "gtagged", "galias"}
 PREFIXES = ["", "OP", "Core_", "Al", "Alpha", "E", "T", "Fo"]   # incl. prefixes that are leading parts of / equal to item and parameter names
+
+
+def mkgen(rng):
+    g = Gen(rng)
+    g.ext["String"] = t_path("String")       # what syn makes of the serialized_as string of the `sas_*` kinds
+    return g
 
 
 def new_name(name):
@@ -83,7 +90,16 @@ def build_item(it):
     gens = [("ty", "T")] if kind in GENERIC else []
     if kind in ("tagged", "gtagged"):
         serde += [m_nv("tag", lit_s("t")), m_nv("content", lit_s("c"))]
+    # container options that concern the members only, never the name of the type itself
+    if it.get("rename_all") and kind in ("struct", "gstruct", "unit", "sas_enum", "sas_struct"):
+        serde.append(m_nv("rename_all", lit_s(it["rename_all"])))
     attrs = [m_path("typeshare")] + ([m_list("serde", serde)] if serde else [])
+    if kind in ("sas_enum", "sas_struct"):
+        attrs = [m_list("typeshare", [m_nv("serialized_as", lit_s("String"))])] + attrs[1:]
+        if kind == "sas_enum":
+            vs = [{"attrs": [], "ident": v, "fields": ("unit",)} for v in ("Pa", "Qa")]
+            return {"kind": "enum", "attrs": attrs, "ident": name, "generics": [], "variants": vs}
+        return {"kind": "struct", "attrs": attrs, "ident": name, "generics": [], "fields": ("named", [field([], "p", t_path("u32"))])}
     if kind in ("struct", "gstruct"):
         fs = [field([], "f%d" % i, u) for i, u in enumerate(uses)] + [field([], "p", t_path("u32"))]
         if kind == "gstruct":
@@ -115,7 +131,8 @@ def build_file(items):
 
 def random_program(rng):
     n = rng.randint(3, 6)
-    items = [{"name": NAMES[i], "kind": rng.choice(KINDS), "rename": rng.random() < 0.5} for i in range(n)]
+    items = [{"name": NAMES[i], "kind": rng.choice(KINDS), "rename": rng.random() < 0.5,
+              "rename_all": rng.choice([None, None, "lowercase", "camelCase", "snake_case", "SCREAMING_SNAKE_CASE", "kebab-case"])} for i in range(n)]
     if rng.random() < 0.1:
         # an item with the name of the generic parameter of the other items (shadowing)
         plain = [it for it in items if it["kind"] not in GENERIC]
@@ -138,7 +155,7 @@ def random_program(rng):
         return tref(target, arg)
 
     for me in items:
-        if me["kind"] == "unit":
+        if me["kind"] in ("unit", "sas_enum", "sas_struct"):
             me["uses"] = []
             continue
         k = 1 if me["kind"] in ("alias", "galias") else rng.randint(1, 4)
@@ -184,7 +201,7 @@ def skeleton_program(kinds, renamed):
 
 def def_uses_original(lang, kind):
     """TsV.C09.defUsesOriginal"""
-    k = "alias" if kind in ("alias", "galias") else "enum" if kind in ("unit", "tagged", "gtagged") else "struct"
+    k = "alias" if kind in ("alias", "galias", "sas_enum", "sas_struct") else "enum" if kind in ("unit", "tagged", "gtagged") else "struct"
     return lang == "go" and k == "enum"      # (Kotlin / Scala / Go aliases: repaired by 0c924cd)
 
 
@@ -212,6 +229,8 @@ def leaves(t, out):
 def item_types(it):
     """every type expression printed for the item"""
     b = build_item(it)
+    if it["kind"] in ("sas_enum", "sas_struct"):
+        return []
     if b["kind"] == "struct":
         return [f["ty"] for f in b["fields"][1]]
     if b["kind"] == "alias":
@@ -462,7 +481,7 @@ def facts_request(lang, cfg, file, gen, text):
 def evaluate(check, cases, impl_only=False):
     """cases: dicts(items, lang, pfx).  Runs model + implementation, the oracle and the comparisons.
     Returns the list of (case, problem) found; reports nothing itself."""
-    g = Gen(check.rng)
+    g = mkgen(check.rng)
     mreqs, rreqs, freqs, names = [], [], [], set()
     for c in cases:
         f = build_file(c["items"])
@@ -671,7 +690,7 @@ def kotlin_import_part(check):
     (b) the oracle = theorem TsV.C09.C09_kotlin_import_lines on the implementation's text: every `import <package>.alpha.<N>`
     line of beta's file names a declaration alpha's file defines."""
     rng = check.rng
-    g = Gen(rng)
+    g = mkgen(rng)
     ts = [m_path("typeshare")]
     defs_alpha = [
         {"kind": "struct", "attrs": list(ts), "ident": "Foo", "generics": [], "fields": ("named", [field([], "a", t_path("u8"))])},
@@ -729,7 +748,7 @@ def multi_part(check):
     every crate refers to its *own* type.  The rename table is keyed by (original name, crate): each module must spell the
     reference with the name its own definition is emitted under."""
     rng = check.rng
-    g = Gen(rng)
+    g = mkgen(rng)
     ts = [m_path("typeshare")]
     ncases = 60 if check.thorough else 12
     mreqs, rreqs, meta, allnames = [], [], [], set()
@@ -786,7 +805,7 @@ def go_acronym_part(check):
     a type whose name contains a configured acronym must be spelled identically where it is defined and wherever it is
     used - plain, under Vec / Option, as a map key or value, as a generic argument (no serde(rename) involved)"""
     rng = check.rng
-    g = Gen(rng)
+    g = mkgen(rng)
     ts = [m_path("typeshare")]
     pool = ["AccountId", "ApiUrl", "UserId", "HttpApi", "IdCard", "UrlId", "Plain"]
     ncases = 120 if check.thorough else 24
@@ -843,7 +862,7 @@ def variant_names_part(check):
     (all capitals, an underscore inside, a lower-case initial): the `<Enum><Variant>Inner` name must be spelled identically
     where the helper is defined and where the variant's content refers to it"""
     rng = check.rng
-    g = Gen(rng)
+    g = mkgen(rng)
     ts = [m_path("typeshare")]
     pool = ["TCP", "OK", "Unix_Socket", "lowerCase", "Plain", "HTTPServer", "V2", "Id"]
     defs_rx = {"kotlin": r"(?:data class|object) (\w+Inner)\b", "swift": r"public struct (\w+Inner)\b", "scala": r"(?:case class|class) (\w+Inner)\b",
